@@ -52,6 +52,8 @@ func isUnauthorized(tx *TxResult) bool {
 		return tx.Op.M == 1
 	case "price":
 		return tx.Oracle != nil && (tx.Oracle.SigMode != SigValid || !tx.Oracle.IsValidator)
+	case "price2":
+		return true // the second message is attributed to a validator that did not sign
 	case "mparams":
 		return tx.Authorized != nil && !*tx.Authorized
 	case "forge":
@@ -149,6 +151,22 @@ func c09Plan(unauthorizedBias bool) func(p *PRNG, cfg Config, tier string) Plan 
 		if f, ok := extraHostile["avs"]; ok {
 			plan = f(p, cfg, plan)
 		}
+		if cfg.GatewayContract {
+			// the gateway is a forwarder contract: user 2 deploys it with its first transaction; some
+			// gateway calls are made through a forwarder frame that reverts after the precompile returned
+			for i := range plan.Blocks {
+				for j := range plan.Blocks[i].Ops {
+					o := &plan.Blocks[i].Ops[j]
+					switch o.K {
+					case "dep", "wd", "del", "und", "assoc", "dissoc", "regchain", "regtoken", "updtoken":
+						if o.M == 0 && p.Chance(1, 5) {
+							o.M = 2
+						}
+					}
+				}
+			}
+			plan.Blocks[0].Ops = append([]Op{{K: "etx", A: 2, E: 4, N: 400000}}, plan.Blocks[0].Ops...)
+		}
 		return plan
 	}
 }
@@ -157,11 +175,12 @@ func init() {
 	cfgGen := func(p *PRNG, tier string) Config {
 		c := SwarmConfig(p, SwarmOpts{WithNST: true})
 		c.HugeAmounts = false
+		c.GatewayContract = p.Chance(1, 3)
 		return c
 	}
 	Register(&PropSpec{
 		ID: "C09", Level: "exploration",
-		Rule: "every entry point reachable by transaction (assets/delegation precompile methods incl. client-chain and token registration, operator, delegation and oracle messages, parameter updates) is driven with satisfiable and unsatisfiable inputs (unknown asset/chain/operator, amount 0 / position+1 / 2^64, frozen or opting-out operator, duplicate registration, malformed oracle info, wrong nonce/base block/decimal/source, unauthorised callers, replays) in states reached by the C01 workload with slashing and epoch ends; for every call that REPORTS failure (tx code != 0, VM error, or precompile success flag false) the byte-level dump of the assets, delegation, operator, dogfood, avs, oracle, reward and slash stores and the oracle's in-memory dump before and after must be equal (the submitting validator's oracle nonce excepted); non-trivial = >= 10 failures checked across >= 5 distinct entry points",
+		Rule: "every entry point reachable by transaction (assets/delegation precompile methods incl. client-chain and token registration, operator, delegation and oracle messages, parameter updates) is driven with satisfiable and unsatisfiable inputs (unknown asset/chain/operator, amount 0 / position+1 / 2^64, frozen or opting-out operator, duplicate registration, malformed oracle info, wrong nonce/base block/decimal/source, unauthorised callers, replays; in a third of the runs the gateway is a forwarder CONTRACT and a fifth of its calls are made through a frame that reverts after the precompile returned) in states reached by the C01 workload with slashing and epoch ends; for every call that REPORTS failure (tx code != 0, VM error, or precompile success flag false) the byte-level dump of the assets, delegation, operator, dogfood, avs, oracle, reward and slash stores and the oracle's in-memory dump before and after must be equal (the submitting validator's oracle nonce excepted); non-trivial = >= 10 failures checked across >= 5 distinct entry points",
 		Assumptions: append([]string{"only failures that real inputs produce are checked (no error injection inside keepers)", "block-level items (one undelegation / one AVS / one slash failing inside Begin/EndBlock) are covered only through the C03/C04 monitors' 'others still processed' checks, not here"}, ledgerAssumptions...),
 		QuickRuns:   500, ThoroughRuns: 8000,
 		GenConfig: cfgGen, GenPlan: c09Plan(false),
@@ -178,7 +197,7 @@ func init() {
 	Register(&PropSpec{
 		ID: "C10", Level: "exploration",
 		Rule: "entry point x caller identity: every gateway-only precompile method (deposit, withdraw, delegate, undelegate, associate, dissociate, client-chain and token registration/update) is called by the configured gateway and by another funded account with the same well-formed payload; price submissions by validators, former validators, outsiders and with garbage / foreign / missing signatures or another key's public key; operator messages signed by another account for the victim's address; parameter updates of dogfood, oracle, mint, fee-distribution and assets by a non-governance account on mainnet and testnet chain ids; issued at random points of C01/C12 histories so identities (validator set, gateway) are state-dependent; an unauthorised call must report rejection AND leave the restaking stores and the in-memory oracle state byte-identical; non-trivial = >= 8 unauthorised attempts across >= 4 entry points",
-		Assumptions: append([]string{"'other contract' callers (CALL/DELEGATECALL forwarders) are not exercised: the unauthorised caller is an externally owned account", "AVS entry points are added with the C20 workload"}, ledgerAssumptions...),
+		Assumptions: append([]string{"in a third of the runs the configured gateway is a forwarder contract (CALL), so the same account is authorised through the contract and unauthorised when it calls the precompile directly; DELEGATECALL / STATICCALL frames are not exercised", "AVS entry points are added with the C20 workload"}, ledgerAssumptions...),
 		QuickRuns:   500, ThoroughRuns: 8000,
 		GenConfig: func(p *PRNG, tier string) Config {
 			c := cfgGen(p, tier)
